@@ -21,4 +21,7 @@ CONDITIONS = shards("step", "c17.py", "h_step", {"cls": [0, 1, 2], "op": list(ra
                     what="one mapping operation vs reference dict keyed by upper(): " + ", ".join(C17_OPS),
                     bound="2 names x present/absent x values 0..1 x order; key pool of 12 case/str/bytes variants") + [
     X("canonsort", "c17.py", "h_canonsort", timeout=200, what="canonsort_keys: permutation, canonical names first in declared order, rest sorted", bound="<=3 distinct symbolic one-letter keys A..F, canonical order (D,B) or none"),
-] + shards("sorted-keys", "c17.py", "h_sorted_keys", {"cls": [0, 1, 2]}, timeout=200, what="sorted_keys/sorted_items use the class canonical_order (CaselessDict none, Parameters none, Event's)", bound="3 distinct keys from a 6-name pool x 3 classes")
+] + shards("update3", "c17.py", "h_update3", {"cls": [0, 1, 2], "mode": [0, 1, 2, 3]}, timeout=200,
+    what="update()/constructor with three possibly colliding names as pairs / pairs+keywords / mapping+keywords: sequential-assignment semantics",
+    bound="7-key pool (5 spellings of one name incl. bytes, 2 of another), pre-state empty or {AB:0}"
+) + shards("sorted-keys", "c17.py", "h_sorted_keys", {"cls": [0, 1, 2]}, timeout=200, what="sorted_keys/sorted_items use the class canonical_order (CaselessDict none, Parameters none, Event's)", bound="3 distinct keys from a 6-name pool x 3 classes")
